@@ -270,7 +270,7 @@ def gen_load(rng, widen, floaty=False, finding_rate=1.0):
     return {"kind": "load", "float": False, "n": n, "append": append,
             "scripts": [gen_script18(rng, False, need_done=rng.chance(0.9)) for _ in range(n)],
             "steps": rng.randint(0, 40 if widen else 25), "steps2": rng.randint(0, 12),
-            "gap": rng.choice([0.125, 2.0, 40.5]), "clock": gen_clock(rng)}
+            "gap": rng.choice([0.125, 2.0, 40.5]), "clock": gen_clock(rng), "nested": rng.chance(0.35)}
 
 
 LONG_REWARDS = [0.1, 0.3, 1 / 3.0, -0.2, 0.7, 1.1, 0.001, 2.675]
@@ -1262,6 +1262,17 @@ def run_load(ctx, case):
                 clock.bump(case["gap"])
                 # relative times of the second session are = 1/16 mod 1/8: no ties with the first session's
                 session(case["steps2"], False, id_offset=4, shift=0.0625)
+            if case.get("nested"):
+                # a monitor file of ANOTHER environment in a sub-folder (log_dir/eval/…monitor.csv): load_results(log_dir)
+                # reads the log folder, not the tree below it (seeded change C18-j)
+                sub = os.path.join(tmp, "eval")
+                os.makedirs(sub, exist_ok=True)
+                ev = DummyVecEnv([make_env_fn(0, case["scripts"][0], monitor=True, filename=os.path.join(sub, "ev"),
+                                              info_keywords=("tag",), override_existing=True, id_offset=2)])
+                ev.reset()
+                for _ in range(max(4, case["steps"] // 2)):
+                    ev.step(np.zeros(1, dtype=np.int64))
+                ev.close()
             rows = read_results(tmp)
             files = []
             for fname in sorted(get_monitor_files(tmp)):
